@@ -121,6 +121,8 @@ def required_lengths(term, names):
     idx = x.a[1]
     if idx.k == 'slice' or idx.k == 'tuple':
       continue
+    if idx.k == 'const' and isinstance(idx.a[0], int) and idx.a[0] < 0:
+      continue   # x[-k] needs len ≥ k only; it never exceeds what the stage indices already require
     try:
       e = la.extreme(la.conv(idx), True) + 1
     except guards.Inconclusive:
@@ -570,9 +572,33 @@ def default_of(ev, f, pname):
   return None
 
 
+def lit(v):
+  if isinstance(v, (list, tuple)):
+    return Term('list', *[lit(x) for x in v])
+  return sym.const(v)
+
+
+# Probe tableaux for the generic driver (the shipped SIL3 tableau alone cannot tell `a_im[i-1][i]` from `a_im[i-1][-1]`, nor
+# a final recombination from "return the last stage": it is ragged and stiffly accurate in both parts).  Entries are distinct
+# primes over a common denominator so that any misplaced index shows up as a different number; they are *not* meant to be
+# a useful scheme — the rule only compares the weights the driver applies with the entries at the documented positions.
+PROBE_TABLEAUX = {
+    # rectangular (zero-padded full-matrix) rows; neither part stiffly accurate
+    'rectangular 3-stage probe': dict(
+        a_ex=[[Fraction(2, 97), 0, 0, 0], [Fraction(3, 97), Fraction(5, 97), 0, 0], [Fraction(7, 97), Fraction(11, 97), Fraction(13, 97), 0]],
+        a_im=[[Fraction(17, 97), Fraction(19, 97), 0, 0], [Fraction(23, 97), Fraction(29, 97), Fraction(31, 97), 0], [Fraction(37, 97), Fraction(41, 97), Fraction(43, 97), Fraction(47, 97)]],
+        b_ex=[Fraction(53, 97), Fraction(59, 97), Fraction(61, 97), Fraction(67, 97)],
+        b_im=[Fraction(71, 97), Fraction(73, 97), Fraction(79, 97), Fraction(83, 97)]),
+    # ragged rows; implicit part stiffly accurate (b_im equals the last row of a_im), explicit part not
+    'ragged probe, implicit part stiffly accurate': dict(
+        a_ex=[[Fraction(2, 89)], [Fraction(3, 89), Fraction(5, 89)]],
+        a_im=[[Fraction(7, 89), Fraction(11, 89)], [Fraction(13, 89), Fraction(17, 89), Fraction(19, 89)]],
+        b_ex=[Fraction(23, 89), Fraction(29, 89), Fraction(31, 89)],
+        b_im=[Fraction(13, 89), Fraction(17, 89), Fraction(19, 89)]),
+}
+
+
 def rule_imex_stage_table(chk, prog):
-  rule = 'C06.3-step-shape'
-  site = f'{MOD}.imex_runge_kutta[SIL3]'
   ev = sym.Evaluator(prog, sym.Options(unroll_limit=16))
   f = prog.func(f'{MOD}.imex_rk_sil3')
   v, _, _ = ev.run(f)
@@ -580,7 +606,21 @@ def rule_imex_stage_table(chk, prog):
   bound, loc = factory_call(prog, 'imex_rk_sil3', 'imex_runge_kutta')
   tab = bound['tableau']
   t = {n: util.literal_list(util.field(tab, n)) for n in ('a_ex', 'a_im', 'b_ex', 'b_im')}
-  chk.require(all(x is not None for x in t.values()), f'{site}: tableau is not literal')
+  chk.require(all(x is not None for x in t.values()), f'{MOD}.imex_runge_kutta[SIL3]: tableau is not literal')
+  imex_stage_table(chk, prog, ev, v, step, senv, t, f'{MOD}.imex_runge_kutta[SIL3]', loc)
+  # the same comparison on probe tableaux handed to the generic driver
+  g = prog.func(f'{MOD}.imex_runge_kutta')
+  cls = prog.cls(f'{MOD}.ImExButcherTableau')
+  for label, t in PROBE_TABLEAUX.items():
+    ev2 = sym.Evaluator(prog, sym.Options(unroll_limit=16))
+    tobj = Term('obj', cls.qualname, tuple((n, lit(t[n])) for n in ('a_ex', 'a_im', 'b_ex', 'b_im')), 0, cls=cls)
+    v2, _, _ = ev2.run(g, bind={'tableau': tobj})
+    step2, _, senv2 = util.inner(ev2, v2, 'imex_runge_kutta')
+    imex_stage_table(chk, prog, ev2, v2, step2, senv2, t, f'{MOD}.imex_runge_kutta[{label}]', (g.file, g.lineno))
+
+
+def imex_stage_table(chk, prog, ev, v, step, senv, t, site, loc):
+  rule = 'C06.3-step-shape'
   s = len(t['b_ex'])
   if sym.contains(step, lambda x: x.k in ('loop', 'phi', 'comp', 'carried')):
     raise AnalysisError(f'{site}: the stage loop could not be unrolled on the literal tableau (unrecognised idiom): {sym.show(step)[:160]}')
